@@ -300,7 +300,7 @@ impl Property for C20 {
     }
 
     fn rule() -> &'static str {
-        "one evaluation = one seeded scenario (replace option flavour -I R / -i / --replace[=R] with R from a pool incl. multi-byte and self-overlapping strings, initial arguments with 0/1/many/adjacent occurrences of R, input lines with inner blanks, empty lines, lines containing R, missing final newline, empty input; every order of -I/-n/-L; read plan; child-outcome script) run through xargs_main and compared with the reference (one run per non-empty line, whole line substituted everywhere, nothing appended, last option decides); distinct = distinct abstract trace; non-trivial = a fault fired or a mode/shape probe hit"
+        "one evaluation = one seeded scenario (replace option flavour -I R / -i / --replace[=R] with R from a pool incl. multi-byte and self-overlapping strings, initial arguments with 0/1/many/adjacent occurrences of R, input lines with inner blanks, empty lines, lines containing R, missing final newline, empty input; every order of -I/-n/-L; read plan; child-outcome script) run through xargs_main and compared with the reference (one run per non-empty line, whole line substituted everywhere, nothing appended, last option decides); also -s that every line fits by 0-5 bytes, and a 1/25 slice with real children (no access to xargs' own input stream); distinct = distinct abstract trace; non-trivial = a fault fired or a mode/shape probe hit"
     }
 
     fn components() -> Value {
